@@ -54,6 +54,7 @@ type Exec struct {
 	entryMeasure []string
 	vstrs map[string]*VStr
 	vstrN int
+	firedSites map[*Clause]bool // "at <site>" clauses whose selector matched an instruction
 }
 
 type retSite struct {
